@@ -278,6 +278,7 @@ def m_int(R, args, kw, node):
         # canonical numerals are accepted and denote d; other accepted spellings (leading zeros,
         # whitespace, underscores, non-ASCII digits) denote *some* int (over-approximation)
         R.assume(z3.Implies(canonical, ok))
+        R.assume(z3.Implies(ok, z3.Length(s) > 0))  # int("") is always a ValueError
         R.fail_if(z3.Not(ok), "ValueError", lab(R, node, "int"))
         other = R.ctx.uf_apply(R, "py_int_of", [v], T.Int)
         val = z3.If(canonical, z3.If(neg, -d, d), other.z)
